@@ -26,6 +26,18 @@ extern "C" __attribute__((used, visibility("default"))) const char *__tsan_defau
     return "exitcode=66:halt_on_error=1:report_signal_unsafe=0:second_deadlock_stack=0:history_size=4";
 }
 
+extern "C" {
+void __asan_set_error_report_callback(void (*callback)(const char *)) __attribute__((weak));
+void *__asan_get_report_address(void) __attribute__((weak));
+}
+static void asan_report_cb(const char *) {
+    // tell the driver what kind of custom-arena address the sanitizer tripped over (freed block vs redzone)
+    if (!__asan_get_report_address) return;
+    const char *c = asim::classify_address(__asan_get_report_address());
+    char buf[160];
+    int n = snprintf(buf, sizeof buf, "CJSIM-ARENA: %s\n", c);
+    if (n > 0) { ssize_t wr = write(2, buf, (size_t)n); (void)wr; }
+}
 static Plan gen_any(const std::string &prop, uint64_t seed, int64_t run) {
     std::string e = engine_of(prop);
     if (e == "store") return gen_store_plan(prop, seed, run);
@@ -247,6 +259,7 @@ static void real_main(void *a) {
     if (argc < 2) { fprintf(stderr, "usage: cjsim gen|batch|replay|merge ...\n"); x->rc = 2; return; }
     std::string mode = argv[1];
     asim::init();
+    if (__asan_set_error_report_callback) __asan_set_error_report_callback(asan_report_cb);
     if (mode == "gen") x->rc = do_gen(argc, argv);
     else if (mode == "batch") x->rc = do_batch(argc, argv);
     else if (mode == "replay") x->rc = do_replay(argc, argv);
